@@ -20,6 +20,8 @@ var fmtLines = []string{
 	"##!> include-except   inc    ex \t\t ex", "##!>  include    inc   --   a    b",
 	// the upper-case lint also looks into definitions
 	"##!> define u [A-Z]+",
+	// a reference is text like any other for the formatter
+	"{{n}}x",
 }
 
 // troublemakers of C10: comments that look like directives, odd arguments, glued keywords, upper-case / unsupported flags
@@ -28,7 +30,7 @@ var fmtTrouble = []string{
 	"##!> assemble extra", "##!> include inc trailing text", "##!> include-except inc", "##!> define n", "##!> define n v w", "##!<<", "##!< trailing", "##!=>x", "##! ##!^ p",
 	"##!^", "##!+", "a ##!> include inc", "##!>", "##!> cmdline", "##!>define n v",
 	// white space other than blank and TAB at the start of a line belongs to the line (the compiler strips only blanks and TABs)
-	"\ufeffabc", "\ufeff##! c", "##!^ foo \t", "##!$ bar  ", "##!+ i \t",
+	"foo\r", "##!> define n v\r", "\ufeffabc", "\ufeff##! c", "##!^ foo \t", "##!$ bar  ", "##!+ i \t",
 	"\ffoo", "\vbar", "\u00a0baz", " \fqux", "\f##!> assemble", "\v##!<", "\u2003##!+ i", "foo\f", "\f",
 }
 
